@@ -493,3 +493,86 @@ pub fn multiset(paths: &[String]) -> BTreeSet<(String, usize)> {
     }
     m.into_iter().collect()
 }
+
+// ---------------------------------------------------------------------------------------
+// Text encoding of forests (replay files, samples)
+// ---------------------------------------------------------------------------------------
+
+impl Leaf {
+    pub fn code(self) -> &'static str {
+        match self {
+            Leaf::File => "F",
+            Leaf::EmptyDir => "E",
+            Leaf::LnFile => "lf",
+            Leaf::LnDir => "ld",
+            Leaf::LnDangling => "lx",
+            Leaf::LnDot => "l.",
+            Leaf::LnSelf => "ls",
+            Leaf::LnSib => "lb",
+            Leaf::Fifo => "P",
+        }
+    }
+    pub fn from_code(c: &str) -> Option<Leaf> {
+        Some(match c {
+            "F" => Leaf::File,
+            "E" => Leaf::EmptyDir,
+            "lf" => Leaf::LnFile,
+            "ld" => Leaf::LnDir,
+            "lx" => Leaf::LnDangling,
+            "l." => Leaf::LnDot,
+            "ls" => Leaf::LnSelf,
+            "lb" => Leaf::LnSib,
+            "P" => Leaf::Fifo,
+            _ => return None,
+        })
+    }
+}
+
+pub fn encode_forest(f: &[Shape]) -> String {
+    f.iter()
+        .map(|s| match s {
+            Shape::Leaf(l) => l.code().to_string(),
+            Shape::Dir(sub) => format!("({})", encode_forest(sub)),
+        })
+        .collect::<Vec<_>>()
+        .join(",")
+}
+
+pub fn decode_forest(s: &str) -> Option<Vec<Shape>> {
+    let b: Vec<char> = s.chars().collect();
+    let mut i = 0;
+    let f = dec(&b, &mut i)?;
+    if i == b.len() {
+        Some(f)
+    } else {
+        None
+    }
+}
+
+fn dec(b: &[char], i: &mut usize) -> Option<Vec<Shape>> {
+    let mut out = vec![];
+    loop {
+        if *i >= b.len() || b[*i] == ')' {
+            return Some(out);
+        }
+        if b[*i] == '(' {
+            *i += 1;
+            let sub = dec(b, i)?;
+            if *i >= b.len() || b[*i] != ')' {
+                return None;
+            }
+            *i += 1;
+            out.push(Shape::Dir(sub));
+        } else {
+            let mut tok = String::new();
+            while *i < b.len() && b[*i] != ',' && b[*i] != ')' {
+                tok.push(b[*i]);
+                *i += 1;
+            }
+            out.push(Shape::Leaf(Leaf::from_code(&tok)?));
+        }
+        if *i < b.len() && b[*i] == ',' {
+            *i += 1;
+        }
+    }
+}
